@@ -32,6 +32,10 @@ type Config struct {
 	PermAll  bool   // additionally: all arrival permutations of the competitors (thorough)
 	Families string // "" = default mix, or a digit string like "0" / "1239"
 	Corpus   string // replay one scenario: JSON array of objects (file content)
+	// stream `pipe` (pipeline.go): in-fragment scenarios of harness/c02 in several arrival orders
+	Pipeline bool
+	Orders   int // arrival orders per scenario
+	Only     int // emit only this scenario (with its objects), -1 = all
 }
 
 // Rep is what one build of the scenario produced.
@@ -99,7 +103,7 @@ func oneRep(objs []client.Object, opts p.Options, r *rng.R, rep int, plan *Plan)
 		if !apply() {
 			return
 		}
-		if rep%3 == 1 && plan == nil {
+		if (rep%3 == 1 && plan == nil) || (plan != nil && plan.Transient) {
 			// a transient competitor: older than everything, then deleted
 			tr := p.Gateway("default", "aaa-transient", opts.Class, -5, p.Listener{Name: "http", Port: 80, Protocol: "HTTP"})
 			c.Upsert(tr)
@@ -167,6 +171,8 @@ func oneRep(objs []client.Object, opts p.Options, r *rng.R, rep int, plan *Plan)
 type Plan struct {
 	Order      []client.Object
 	ApplyAfter []bool
+	// Transient: after everything has arrived, an older Gateway of the class appears and is deleted again
+	Transient bool
 }
 
 // competitorPlans: all arrival permutations of up to five competitors of one site (Gateways of the class,
